@@ -287,7 +287,7 @@ func RunSrvQ(plan *SrvPlan, tape *Tape, searchSeed uint64, prop string, online f
 	w := NewSrvWorld(sim, plan)
 	w.online = online
 	// phase 0: workload (+ faults)
-	sim.RunPhase(w, 0, false)
+	sim.RunPhase(w, 0, plan.Strategy.TimeRace > 0)
 	if sim.Viol == nil && sim.Steps < sim.MaxSteps && atQ != nil {
 		w.peerReceive()
 		if v := atQ(w); v != nil {
